@@ -231,6 +231,11 @@ func (k KeyEnvelope) Unwrap(kek []byte) (lorawan.AES128Key, error) {
 		return key, errors.Wrap(err, "new cipher error")
 	}
 
+	// a wrapped key consists of the 8 byte integrity value + n x 8 bytes
+	if len(k.AESKey) < 16 || len(k.AESKey)%8 != 0 {
+		return key, errors.New("invalid wrapped key length")
+	}
+
 	b, err := keywrap.Unwrap(block, k.AESKey[:])
 	if err != nil {
 		return key, errors.Wrap(err, "unwrap key errror")
